@@ -59,6 +59,33 @@ def main():
         print("negative trace self-test FAILED", r["error"], r["verdicts"][:5])
         return 2
     print("negative trace self-test: corrupted JDE rejected with clause FWD_NUM")
+    # Apalache: the induction step of Apa_Calendar holds, and FAILS when the Gregorian rule is broken (non-vacuity)
+    import shutil
+    import tempfile
+    ok = core.run_apalache(core.Apa("Apa_Calendar", "IndInit", "IndInv", 1), os.path.join(core.WORK, "SELFTEST", "apa_ok"))
+    if not ok.ok:
+        print("Apalache self-test FAILED (induction step): " + str(ok.error))
+        return 2
+    tmp = tempfile.mkdtemp(prefix="apaneg_", dir=core.WORK)
+    try:
+        for f in ("Calendar.tla", "Apa_Calendar.tla"):
+            shutil.copy(os.path.join(core.SPEC, f), tmp)
+        cal = open(os.path.join(tmp, "Calendar.tla")).read()
+        broken = cal.replace("(yy % 100 # 0 \\/ yy % 400 = 0)", "(yy % 100 # 0 \\/ yy % 800 = 0)")
+        if broken == cal:
+            print("Apalache self-test FAILED: could not plant the broken leap rule")
+            return 2
+        open(os.path.join(tmp, "Calendar.tla"), "w").write(broken)
+        p = subprocess.run(["apalache-mc", "check", "--init=IndInit", "--inv=IndInv", "--length=1", "--out-dir=" + os.path.join(tmp, "out"),
+                            os.path.join(tmp, "Apa_Calendar.tla")], cwd=tmp, stdout=subprocess.PIPE, stderr=subprocess.STDOUT, timeout=900)
+        out = p.stdout.decode("utf-8", "replace")
+        if "The outcome is: Error" not in out or "violat" not in out:
+            print("Apalache negative self-test FAILED: a leap rule 'divisible by 800' was not refuted\n" + out[-800:])
+            return 2
+    finally:
+        shutil.rmtree(tmp, ignore_errors=True)
+        shutil.rmtree(os.path.join(core.WORK, "SELFTEST", "apa_ok"), ignore_errors=True)
+    print("Apalache self-test: induction step proved; broken leap rule refuted")
     return 0
 
 
